@@ -149,7 +149,7 @@ def lemma_block_job(ctx):
         sends = [e for e in p.trace if e.name == "send"]
         if p.status == "panic":
             # only legitimate when the status channel itself failed
-            if not any(e.ret == "err" for e in sends):
+            if not any(is_errev(e) for e in sends):
                 ctx.fail("block job: no panic unless the status channel is broken", "%s %s" % (p.msg, names_t))
             continue
         if p.status != "return":
@@ -166,7 +166,7 @@ def lemma_block_job(ctx):
                 ctx.fail("block job copies from the source descriptor to the destination descriptor", str(e.args[:2]))
             ctx.lemma(eng, "C01/C05: each copy request starts where the previous one stopped and stays inside the block", p.pc,
                       z3.And(e.args[3].t == off.t + done, e.args[2].t >= 1, e.args[2].t <= nbytes.t - done), info={"trace": names_t})
-            if e.ret == "err":
+            if is_errev(e):
                 failed = True
                 break
             done = done + e.ret.t
@@ -184,7 +184,7 @@ def lemma_block_job(ctx):
             total = total + e.args[0].fields[0].t
         ctx.lemma(eng, "C12: the Copied updates of a block job add up to the bytes the kernel reported", p.pc, total == done)
         # C10/C18/C20: the job drops its handle clone exactly once, after the last copy
-        ctx.witness(eng, "kernel returns a short count for a block", p.pc, [copies[0].ret.t < nbytes.t]) if copies[0].ret != "err" else None
+        ctx.witness(eng, "kernel returns a short count for a block", p.pc, [copies[0].ret.t < nbytes.t]) if not is_errev(copies[0]) else None
     ctx.bounds = "one arbitrary block (any offset, any size >= 1), copy_file_offset contract: any count 1..=request or an error"
 
 
@@ -291,7 +291,7 @@ def lemma_queue_file_blocks(ctx):
             continue
         q = [e for e in p.trace if e.name == "queue_file_range"]
         rl = [e for e in p.trace if e.name == "reflink"]
-        errs = [e for e in p.trace if e.ret == "err"]
+        errs = [e for e in p.trace if is_errev(e)]
         fin = [e for e in p.trace if e.name == "finalise"]
         if errs:
             (ctx.passed if is_err(p.ret) else ctx.fail)("C04: a failed step makes queue_file_blocks return Err", str(names))
